@@ -184,6 +184,11 @@ def cases(tier, seed):
             raw = e2.std_rq()
             for off in (10, 12, 26, 30):
                 yield {'state': state, 'seed': 'rq', 'mut': 'title-utf8@%d' % off, 'bytes': raw[:off] + b'\xc3\xa9' + raw[off + 2:], 'ending': 'accept-then-close'}
+            # ... and bytes that are no text at all
+            for off in (10, 13, 26, 41):
+                for v in (0xE9, 0xFF, 0x80):
+                    yield {'state': state, 'seed': 'rq', 'mut': 'title-byte@%d=%02x' % (off, v), 'bytes': raw[:off] + bytes([v]) + raw[off + 1:],
+                           'ending': 'accept-then-close'}
             yield {'state': state, 'seed': 'rq', 'mut': 'none', 'bytes': raw, 'ending': 'accept-then-close'}
         if state in ('Sta6', 'Sta7'):
             for mlabel, mraw in cmd_mutants():
